@@ -24,7 +24,7 @@ ASSUMPTIONS = ['a vanished client is modelled by closing (FIN) or resetting (RST
 SHRINK = 'greedy'
 SHRINK_RUNS = 6
 TIME_BUDGET = {'quick': 170, 'thorough': 1700}
-REQUIRED = {'quick': {'req:worker': 60, 'req:p_worker': 40, 'req:ctx_create': 40, 'req:ctx_delete': 30, 'req:worker_in_ctx': 30, 'cut:inside': 100, 'ctrl_step': 12, 'healthy_concurrent': 60},
+REQUIRED = {'quick': {'req:worker': 60, 'req:p_worker': 40, 'req:ctx_create': 40, 'req:ctx_delete': 30, 'req:worker_in_ctx': 30, 'cut:inside': 100, 'ctrl_step': 12, 'healthy_concurrent': 20, 'healthy_in_same_context': 60},
             'thorough': {'req:worker': 600, 'cut:inside': 1000, 'ctrl_step': 300}}
 REQS = ['worker', 'p_worker', 'ctx_create', 'ctx_delete', 'worker_in_ctx']
 PROBE_GUARD = 25.0
@@ -48,7 +48,7 @@ _fault = st.fixed_dictionaries({
 
 
 def strategy(tier):
-    return st.fixed_dictionaries({'faults': st.lists(_fault, min_size=1, max_size=4), 'healthy': st.booleans()})
+    return st.fixed_dictionaries({'faults': st.lists(_fault, min_size=1, max_size=4), 'healthy': st.sampled_from([False, True, 'in_ctx', 'in_ctx'])})
 
 
 def exhaustive(tier, shard, nshards):
@@ -212,6 +212,16 @@ def faulty_client(srv_addr, streams, f, absolute=False):
     return info
 
 
+def ensure_ctx(ctx):
+    """context 4242 (the one the recorded worker-in-context stream names) exists on the server"""
+    from pyworkers.remote_context import RemoteContext
+    srv = ctx.data['server']
+    try:
+        ctx.data['rc4242'] = bounded(RemoteContext, 25, 4242, host=srv.addr, target=vtargets.sq)
+    except ValueError:
+        pass
+
+
 def probe(ctx):
     """(alive, round trip ok, detail)"""
     from pyworkers.remote import RemoteWorker
@@ -241,7 +251,19 @@ def run_case(case, ctx):
         ctx.data['streams_for'] = id(srv)
     streams = ctx.data['streams']
     healthy = None
-    if case.get('healthy'):
+    in_ctx = None
+    if case.get('healthy') == 'in_ctx':
+        from pyworkers.persistent_remote import PersistentRemoteWorker
+        out.label('healthy_in_same_context')
+        try:
+            ensure_ctx(ctx)
+            in_ctx = bounded(PersistentRemoteWorker, PROBE_GUARD, None, context=4242, host=srv.addr)
+            if bounded(in_ctx.call, 20, 3) != 9:
+                raise RuntimeError('context worker does not compute')
+        except BaseException as e:
+            out.excluded = 'could not start the healthy in-context worker: ' + type(e).__name__
+            return out
+    elif case.get('healthy'):
         out.label('healthy_concurrent')
         marker = os.path.join(ctx.scratch, IC.fresh_name(ctx, 'h') + '.m')
         try:
@@ -283,6 +305,21 @@ def run_case(case, ctx):
             out.viol('healthy_worker_blocked', site, 'is_alive()/wait() on the healthy worker blocked')
         except BaseException as e:
             out.viol('healthy_worker_raised:' + type(e).__name__, site, str(e)[:150])
+    if in_ctx is not None and alive:
+        deleted = any(i['req'] == 'ctx_delete' and i['cut'] == i['len'] and not f['garbage'] for i, f in zip(infos, case['faults']))
+        if not deleted:
+            try:
+                v = bounded(in_ctx.call, 25, 5)
+                if v != 25:
+                    out.viol('healthy_worker_disturbed', site + ':same_context', f'worker of another client in the same context: call(5) -> {v!r}')
+            except Blocked:
+                out.viol('healthy_worker_blocked', site + ':same_context', 'call() on the healthy in-context worker blocked')
+            except BaseException as e:
+                out.viol('healthy_worker_disturbed', site + ':same_context', f'worker of another client in the same context failed: {type(e).__name__}: {e}'[:200])
+        try:
+            bounded(in_ctx.terminate, 10, 1)
+        except BaseException:
+            pass
     out.obs = {'faults': infos, 'server_alive': alive, 'probe_ok': ok}
     if not alive or not ok:
         IC.stop_server(ctx)
